@@ -6,13 +6,21 @@ From Orda.Proofs Require Import OrderFacts Permute CounterFacts MapFacts MapSpec
 
 (* a counter equals the 32-bit wrapped sum of all increments *)
 Theorem C02_counter_sum :
-  forall l : list op, fold_left c_exec_remote l c_init = wrap32 (sum_deltas l).
+  forall l : list op, no_snap l -> fold_left c_exec_remote l c_init = wrap32 (sum_deltas l).
 Proof. exact counter_outcome. Qed.
 Print Assumptions C02_counter_sum.
 
+(* the snapshot operation (created once with the datatype, the first operation of a log) replaces the value by
+   its body, the initial value: what counts is the increments after it *)
+Theorem C02_counter_snapshot_restarts :
+  forall l1 i l2, no_snap l2 -> fold_left c_exec_remote (l1 ++ OSnap i :: l2) c_init = wrap32 (sum_deltas l2).
+Proof. exact counter_snapshot_resets. Qed.
+Print Assumptions C02_counter_snapshot_restarts.
+
 (* a map key holds the entry (value, or tombstone for a remove) of the operation on
    that key with the greatest timestamp; it is absent iff nothing was written on it.
-   [exec_ok]: a remove is only executed on a key some put has created (causal delivery). *)
+   [exec_ok]: a remove is only executed on a key some put has created (causal delivery), and
+   the list holds no snapshot operation (executed, it empties the map: [reg_apply k r (OSnap _) = None]). *)
 Theorem C02_map_greatest_timestamp :
   forall k l,
     (forall o, In o l -> op_bounded o) ->
